@@ -143,6 +143,21 @@ CHECKS["C12"] = dict(
     technique="TLA+ spec N2KFraming model-checked over all segmentations; real client sessions on a virtual-time loop validated by TLC",
 )
 
+CHECKS["C20"] = dict(
+    level="model_checking",
+    text=("TLC checks the marker discipline of N2KFraming on every stream of up to 3 (4 thorough) segments drawn from valid, corrupted "
+          "and truncated packets and noise runs over {AA, 55, x}: nothing with a bad checksum is delivered, delivery is in order and "
+          "once, noise that neither contains nor completes the start marker loses nothing, at most the first packet after a "
+          "disturbance is lost, and the held-back bytes stay below the window size. The real Waveshare client is then run on the "
+          "virtual-time loop with real 20-byte packets: all patterns of 2 (3) segments over 10 segment kinds between valid packets, "
+          "and noise runs of up to 10^5 (10^6) bytes, under several read segmentations; delivered identities and the bytes held "
+          "back after every read are judged by TLC clause by clause; agreement with the model's exact output is reported as DRIFT."),
+    note=("Trusted: TLC; the virtual-time loop; held-back bytes measured as the size of byte containers reachable from the client's own "
+          "attributes (no attribute named); noise re-rolled when a false window would have a matching checksum (1/256 per false marker)."),
+    design="5/C20",
+    technique="TLA+ spec N2KFraming marker discipline model-checked (MC_Resync, MC_Framing); real serial client sessions validated by TLC",
+)
+
 NOT_YET = {
 }
 
